@@ -395,14 +395,26 @@ fn hostile_case(ctx: &Ctx, case: u64, r: &mut Rng, rep: &mut Report) {
         entries.push(SynthEntry { path: base.join("d"), node: synth_node(b"d", &e_dir), data: None });
     }
     entries.push(SynthEntry { path: base.join("a_normal"), node: synth_node(b"a_normal", &e_file), data: Some(Arc::new(b"normal".to_vec())) });
+    // the name as a foreign tool could have STORED it: dots and separators hidden behind restic's \xNN escapes (the
+    // library's own escaping never produces those, but it has to unescape them before judging the name)
+    let hide = r.chance(1, 2) && !name.is_empty();
+    let stored = |n: &mut rustic_core::repofile::Node, r: &mut Rng| {
+        if hide {
+            n.name = name.iter().map(|b| if *b == b'.' || *b == b'/' || r.chance(1, 4) || !b.is_ascii_graphic() || *b == b'\\' || *b == b'"' { format!("\\x{b:02x}") } else { (*b as char).to_string() }).collect();
+        }
+    };
     if as_dir {
-        entries.push(SynthEntry { path: parent.join("hostile_dir_placeholder"), node: synth_node(&name, &e_dir), data: None });
+        let mut node = synth_node(&name, &e_dir);
+        stored(&mut node, r);
+        entries.push(SynthEntry { path: parent.join("hostile_dir_placeholder"), node, data: None });
     } else {
-        entries.push(SynthEntry { path: parent.join("hostile_placeholder"), node: synth_node(&name, &e_file), data: Some(Arc::new(b"hostile payload".to_vec())) });
+        let mut node = synth_node(&name, &e_file);
+        stored(&mut node, r);
+        entries.push(SynthEntry { path: parent.join("hostile_placeholder"), node, data: Some(Arc::new(b"hostile payload".to_vec())) });
     }
     entries.sort_by(|a, b| a.path.cmp(&b.path));
     let src = SynthSource { entries, frag: crate::model::Frag::Whole };
-    let detail = json!({"node_name": String::from_utf8_lossy(&name), "nested": nested, "as_dir": as_dir});
+    let detail = json!({"node_name": String::from_utf8_lossy(&name), "nested": nested, "as_dir": as_dir, "stored_with_escapes": hide});
     let snap = match catch(|| h.env.ids().and_then(|repo| repo.archive(&BackupOptions::default().parent_opts(ParentOptions::default().force(true)), &src, snap_at(1_700_000_000, "h"), &[base.clone()]).map_err(|e| errstr(&e)))) {
         Ok(Ok(s)) => s,
         Ok(Err(_)) => {
@@ -438,7 +450,7 @@ fn hostile_case(ctx: &Ctx, case: u64, r: &mut Rng, rep: &mut Report) {
             detail.clone(),
         );
     }
-    rep.class(format!("hostile/{}{}", String::from_utf8_lossy(&name).replace(root.to_str().unwrap_or("?"), "<abs>"), if nested { "/nested" } else { "" }));
+    rep.class(format!("hostile/{}{}{}", String::from_utf8_lossy(&name).replace(root.to_str().unwrap_or("?"), "<abs>"), if nested { "/nested" } else { "" }, if hide { "/escaped" } else { "" }));
     let _ = std::fs::remove_dir_all(&root);
 }
 
@@ -449,7 +461,7 @@ pub fn run(ctx: &Ctx) -> (Report, Meta) {
     rep.merge({ let mut cb = c2.clone(); cb.case_base = 1_000_000; run_cases(&cb, ctx.tier.pick(60, 800), &|c, i, r, rep| hostile_case(c, i + 1_000_000, r, rep)) });
     let meta = Meta {
         level: "exploration",
-        rule: "case = generated snapshot (names incl. escapes and invalid UTF-8, symlinks, all-zero files and files with holes) restored into a sandbox root holding dest/, outside/ with sentinel files, a sibling directory and a file sharing dest's name prefix. The destination is pre-populated by mutating the snapshot content per entry {identical, same size different bytes, truncated, longer, file<->dir<->symlink with symlinks pointing at the sentinels outside, missing} plus extra files/dirs/symlinks; options delete x verify_existing x sparse x no_ownership. A dry run must change nothing; after the real restore every snapshot path must hold the snapshot's type, bytes, link target, mode and mtime, extras are gone iff delete (else untouched), and the manifest (type, bytes, mode, mtime, inode) of everything outside dest must be unchanged. Hostile snapshots are built through a synthetic source with node names '..', '../x', 'a/../../x', absolute paths, names with separators, '.', empty: nothing may appear or change outside dest. distinct_nontrivial = distinct (pre-state mutation, delete, verify) / hostile name classes".to_string(),
+        rule: "case = generated snapshot (names incl. escapes and invalid UTF-8, symlinks, all-zero files and files with holes) restored into a sandbox root holding dest/, outside/ with sentinel files, a sibling directory and a file sharing dest's name prefix. The destination is pre-populated by mutating the snapshot content per entry {identical, same size different bytes, truncated, longer, file<->dir<->symlink with symlinks pointing at the sentinels outside, missing} plus extra files/dirs/symlinks; options delete x verify_existing x sparse x no_ownership. A dry run must change nothing; after the real restore every snapshot path must hold the snapshot's type, bytes, link target, mode and mtime, extras are gone iff delete (else untouched), and the manifest (type, bytes, mode, mtime, inode) of everything outside dest must be unchanged. Hostile snapshots are built through a synthetic source with node names '..', '../x', 'a/../../x', absolute paths, names with separators, '.', empty - stored plainly or with dots/separators hidden behind \\xNN escapes: nothing may appear or change outside dest. distinct_nontrivial = distinct (pre-state mutation, delete, verify) / hostile name classes".to_string(),
         exhaustive: false,
         assumptions: vec![
             "pre-existing files that differ from the snapshot always get another mtime (the property's premise when verify_existing is off)".to_string(),
